@@ -345,7 +345,7 @@ class OutGen:
                 calls.append(f"call isub({rng.choice(['s2', 'x1', '0.5_jprb'])}, s3)")
             elif kd == 'ifun':
                 procs += ['function ifun(v) result(r)', '  integer, intent(in) :: v', '  integer :: r',
-                          f"  r = mod(v*{rng.choice(['k1', 'j1', 'np'])} + int(c2(1, m)) + ia(n), 29)", 'end function ifun']
+                          f"  r = mod(v*{rng.choice(['k1', 'j1', 'np'])} + int(c2(1, {rng.choice(['m', '1'])})) + ia({rng.choice(['n', '1'])}), 29)", 'end function ifun']
                 calls.append(f"j1 = ifun({rng.choice(['3', 'k1', 'j2'])}) + ifun(2)")
             elif kd == 'iarr':
                 procs += ['subroutine iarr(bb)', '  real(jprb), intent(inout) :: bb(:)', '  integer :: jj',
